@@ -153,6 +153,26 @@ WELL = ['a \\verb|$| b', 'x \\verb|a_b|', 'end with verb \\verb|q|', '\\verb!{!'
         'A \\LTinput{empty.tex} B $x$ C', 'A\\footnote{b} \\LTinput{defs.tex} C']
 
 
+def accent_cases(rng, tier):
+    """every accent macro on every ASCII letter (and a few other characters):
+    the composed character -- or named sequence -- Unicode has for the pair,
+    or the mark with its diagnostic when there is none; compared with the
+    model (whose table is regenerated from unicodedata on every run)"""
+    from yalafi import parameters
+    accs = sorted(parameters.Parameters('en').accent_macros)
+    letters = 'abcdefghijklmnopqrstuvwxyzABCDEFGHIJKLMNOPQRSTUVWXYZ'
+    pairs = [(a, c) for a in accs for c in letters]
+    if tier == 'quick':
+        pairs = rng.sample(pairs, 200) + [(a, c) for a in accs for c in 'LlTq']
+    out = []
+    for a, c in pairs:
+        form = rng.choice(['%s%s', '%s{%s}', '%s %s'] if a[-1:].isalpha() is False
+                          else ['%s{%s}', '%s %s'])
+        tex = 'Alpha ' + form % (a, c) + 'x Beta.\n'
+        out.append((parsecase.T2T(tex, lang='en', pack='*', files={}), None, 'accent'))
+    return out
+
+
 def reuse_stream(res):
     """Python interface: one Parameters object (and one Parser object) used
     for several documents -- every call that puts a mark into the text prints
@@ -209,6 +229,7 @@ def run(tier, seed, build, res):
         cases.append((parsecase.T2T(w, lang='en', pack='*', files=dict(universe.FILES)),
                       docs.Doc(), 'doc'))
     cases += fault_cases(rng, 150 if tier == 'quick' else 3000)
+    cases += accent_cases(rng, tier)
     for i in range(0, len(cases), 2000):
         universe.run(cases[i:i + 2000], res, 'faults', project, oracle,
                      sample_rule=lambda c, im: bool(im[2]))
